@@ -2,6 +2,7 @@
 
 pub mod alloc;
 pub mod caplog;
+pub mod clock;
 pub mod core;
 pub mod hooks;
 pub mod iso;
